@@ -8,7 +8,7 @@ def _conc(ctx):
     conc.conc_sessions(ctx, int((700 if ctx.tier == "quick" else 8000) * ctx.budget))
 
 
-Unit([("shell", scen.gen_shell, 1)], (oracles.o_c01, oracles.o_lean_c01) + COMMON,
+Unit([("shell", scen.gen_shell, 5), ("carry", scen.gen_decode_carry, 1)], (oracles.o_c01, oracles.o_lean_c01) + COMMON,
      "sessions (connect, then shell/exec_out/streaming_shell/root) against the reactive simulator: outputs biased to UTF-8 edge cases, split into WRTE "
      "payloads at every byte / randomly / with empty payloads / none at all; burst and stop-and-wait devices; remote ids {sequential, equal to local, "
      "near 2^32, random}; id-counter presets near 0 and 2^32; foreign-stream packets injected; six read-fragmentation styles; every scenario on "
